@@ -27,7 +27,7 @@ def build_engine():
     pflags = ["-std=c++14", "-w", "-O2", "-g1", "-fno-omit-frame-pointer"] + build.INCLUDES
     rt, wl, op = build.compile_many([(os.path.join(HERE, "rt.cpp"), pflags, ""), (os.path.join(HERE, "workload.cpp"), pflags, ""),
                                      (os.path.join(HERE, "ops.cpp"), iflags, "")])
-    return build.link([rt, wl, op] + objs, os.path.join(build.BUILD, "bin", "thrsim"), ["-no-pie", "-pthread"] + ["-Wl,--wrap=" + w for w in WRAPS])
+    return build.link([rt, wl, op] + objs, os.path.join(build.BIN, "thrsim"), ["-no-pie", "-pthread"] + ["-Wl,--wrap=" + w for w in WRAPS])
 
 
 def corpus_manifest():
